@@ -220,14 +220,14 @@ fn reverse_agree(shape: [usize; 3]) {
     std::mem::forget(before);
 }
 
-// verif: prop=C12 tier=quick cap=1200 rot=agree bound="model shape (2,0,0): all field values, all pointer values" fns="StandardPath::{try_reverse,try_encode_to_vec},StandardPathView::try_reverse" stubs="none"
+// verif: prop=C12 tier=quick cap=1200 bound="model shape (2,0,0): all field values, all pointer values" fns="StandardPath::{try_reverse,try_encode_to_vec},StandardPathView::try_reverse" stubs="none"
 #[kani::proof]
 #[kani::unwind(14)]
 fn c12_reverse_agree_s200() {
     reverse_agree([2, 0, 0])
 }
 
-// verif: prop=C12 tier=quick cap=1200 rot=agree bound="model shape (1,1,0): all field values, all pointer values" fns="StandardPath::{try_reverse,try_encode_to_vec},StandardPathView::try_reverse" stubs="none"
+// verif: prop=C12 tier=thorough cap=3400 mem=24 bound="model shape (1,1,0): all field values, all pointer values" fns="StandardPath::{try_reverse,try_encode_to_vec},StandardPathView::try_reverse" stubs="none"
 #[kani::proof]
 #[kani::unwind(48)]
 fn c12_reverse_agree_s110() {
